@@ -3,7 +3,7 @@
    sumor extracted to OCaml's own; N, positive, nat stay inductive).  No Extract Constant of ours:
    the checksum stays the first argument `crc` of run_case and is supplied by the driver. *)
 From Coq Require Import NArith List.
-From Blue Require Import Mani.Model Mani.Fs Mani.ModelMani.
+From Blue Require Import Mani.Model Mani.Fs Mani.ModelMani Mani.Lock.
 Require Import ExtrOcamlBasic.
 Extraction Language OCaml.
-Extraction "../ocaml/mani/gen_mani.ml" run_case N.of_nat N.to_nat.
+Extraction "../ocaml/mani/gen_mani.ml" run_case lock_run N.of_nat N.to_nat.
